@@ -26,13 +26,71 @@ theorem validB_ok {cls ty : Nat} {rd : List UInt8} (h : validB cls ty rd = true)
 structure WFRecord (p : PRecord) : Prop where
   sep_ne : p.sep ≠ []
   sep_ws : ∀ x ∈ p.sep, isWs x = true
-  trail_ws : ∀ x ∈ p.trail, isWs x = true
-  comment_ok : commentOK p.comment
   owner_ok : ∀ n, p.owner = .named n → WFName n ∧ (nameText n).head? ≠ some 36
   ttl_ok : ∀ t, p.ttl = some t → t ≤ 4294967295
   cls_ok : ∀ c, p.cls = some c → WFClass c
   ty_ok : WFType p.ty ∧ p.ty.value ≠ 10 ∧ p.ty.value ≠ 41 ∧ p.ty.value ≠ 250
   rd_ok : WFRdata p.rdata
+  /-- the gaps before, inside and after the RDATA: parentheses balanced, line ends only inside
+      them (`S i`: inside parentheses before gap `i`) -/
+  gaps_ok : ∃ S : Nat → Bool, S 0 = false ∧
+    (∀ i, i ≤ rdataGaps p.rdata → GapOK (gapAt p.gaps i) (S i) (S (i + 1))) ∧
+    TailOK p.tail p.comment (S (rdataGaps p.rdata + 1))
+
+/-! ### the gap conditions in checkable form -/
+
+def commentB (c : List UInt8) : Bool :=
+  match c with
+  | [] => true
+  | x :: body => x == 59 && body.all fun y => y != 10 && y != 13
+
+theorem commentOK_of_B {c : List UInt8} (h : commentB c = true) : commentOK c := by
+  cases c with
+  | nil => exact .inl rfl
+  | cons x body =>
+    simp only [commentB, Bool.and_eq_true, beq_iff_eq, List.all_eq_true, bne_iff_ne, ne_eq] at h
+    obtain ⟨rfl, hb⟩ := h
+    exact .inr ⟨body, rfl, hb⟩
+
+def gapWFB (g : PGap) : Bool :=
+  g.all fun
+    | .newline c _ => commentB c
+    | _ => true
+
+theorem GapWF_of_B {g : PGap} (h : gapWFB g = true) : GapWF g := by
+  intro c crlf hm
+  simp only [gapWFB, List.all_eq_true] at h
+  exact commentOK_of_B (h _ hm)
+
+def gapOKB (g : PGap) (p p' : Bool) : Bool := !g.isEmpty && gapWFB g && gapRun p g == some p'
+
+theorem GapOK_of_B {g : PGap} {p p' : Bool} (h : gapOKB g p p' = true) : GapOK g p p' := by
+  simp only [gapOKB, Bool.and_eq_true, Bool.not_eq_true', beq_iff_eq] at h
+  exact ⟨by intro hg; subst hg; simp at h, GapWF_of_B h.1.2, h.2⟩
+
+def tailOKB (g : PGap) (cmt : List UInt8) (p : Bool) : Bool := gapWFB g && gapRun p g == some false && commentB cmt
+
+theorem TailOK_of_B {g : PGap} {cmt : List UInt8} {p : Bool} (h : tailOKB g cmt p = true) : TailOK g cmt p := by
+  simp only [tailOKB, Bool.and_eq_true, beq_iff_eq] at h
+  exact ⟨GapWF_of_B h.1.1, h.1.2, commentOK_of_B h.2⟩
+
+/-- "inside parentheses" before the `i`-th gap of a record's RDATA part -/
+def statesOf (gaps : List PGap) : Nat → Bool
+  | 0 => false
+  | i + 1 => (gapRun (statesOf gaps i) (gapAt gaps i)).getD false
+
+/-- the gaps of a record are well formed: checked with the states computed -/
+def gapsOKB (p : PRecord) : Bool :=
+  ((List.range (rdataGaps p.rdata + 1)).all fun i =>
+    gapOKB (gapAt p.gaps i) (statesOf p.gaps i) (statesOf p.gaps (i + 1))) &&
+  tailOKB p.tail p.comment (statesOf p.gaps (rdataGaps p.rdata + 1))
+
+theorem gaps_ok_of_B (p : PRecord) (h : gapsOKB p = true) :
+    ∃ S : Nat → Bool, S 0 = false ∧
+      (∀ i, i ≤ rdataGaps p.rdata → GapOK (gapAt p.gaps i) (S i) (S (i + 1))) ∧
+      TailOK p.tail p.comment (S (rdataGaps p.rdata + 1)) := by
+  simp only [gapsOKB, Bool.and_eq_true, List.all_eq_true, List.mem_range] at h
+  exact ⟨statesOf p.gaps, rfl, fun i hi => GapOK_of_B (h.1 i (by omega)), TailOK_of_B h.2⟩
 
 theorem dropWhile_ws (sep : List UInt8) (hsep : ∀ x ∈ sep, isWs x = true) (c : UInt8) (t : List UInt8)
     (hc : isWs c = false) : (sep ++ c :: t).dropWhile isWs = c :: t := by
@@ -51,13 +109,17 @@ theorem clsPair_text (p : PRecord) : (clsPair p).map (·.1) = p.cls.map classTex
 theorem clsPair_value (p : PRecord) : (clsPair p).map (·.2) = p.cls.map PCode.value := by
   unfold clsPair; cases p.cls <;> rfl
 
+/-- the text of a record from the gap before the RDATA on -/
+def rdataPart (p : PRecord) (r : List UInt8) : List UInt8 :=
+  gapText (gapAt p.gaps 0) ++ (rdataText (fun i => gapAt p.gaps (i + 1)) p.rdata ++
+    (tailText p.tail p.comment p.crlf ++ r))
+
 theorem renderRecord_eq (p : PRecord) (r : List UInt8) :
     renderRecord p ++ r =
       ownerText p.owner ++
-        (p.sep ++ recordBody p.sep p.ttl ((clsPair p).map (·.1)) p.clsFirst (typeText p.ty)
-          (p.sep ++ (rdataText p.sep p.rdata ++ (p.trail ++ (p.comment ++ 10 :: r))))) := by
+        (p.sep ++ recordBody p.sep p.ttl ((clsPair p).map (·.1)) p.clsFirst (typeText p.ty) (rdataPart p r)) := by
   rw [clsPair_text]
-  unfold renderRecord recordBody
+  unfold renderRecord recordBody rdataPart tailText
   rw [ttlClassText_eq]
   simp
 
@@ -147,7 +209,7 @@ theorem parseLine_record (ctx : Ctx) (hctx : CtxWF ctx) (p : PRecord) (hwf : WFR
         .ok ((some (.record sr.line ⟨sr.owner, sr.ttl, sr.cls, sr.ty, sr.rdata⟩), ctx'),
              ⟨r, line + recordLines p + 1, false⟩) ∧
       toSCtx ctx' = sc' := by
-  obtain ⟨hne, hsep, htrail, hcmt, hown, httl, hcls, ⟨hty, h10, h41, h250⟩, hrdwf⟩ := hwf
+  obtain ⟨hne, hsep, hown, httl, hcls, ⟨hty, h10, h41, h250⟩, hrdwf, ⟨S, hS0, hG, hT⟩⟩ := hwf
   obtain ⟨owner, tv, cv, rd, howner, htv, hcv, hrdw, hkind, hgen, rfl, rfl⟩ := denoteRecord_some hden
   have htyOK := typeText_ok p.ty hty
   have hclsOK : ∀ T k, clsPair p = some (T, k) → ClassTextOK T k := by
@@ -172,13 +234,17 @@ theorem parseLine_record (ctx : Ctx) (hctx : CtxWF ctx) (p : PRecord) (hwf : WFR
     cases hp : p.cls with
     | some k => simpa [hp] using hcv
     | none => simpa [hp, toSCtx] using hcv
-  have hR0 : atFieldEnd (p.sep ++ (rdataText p.sep p.rdata ++ (p.trail ++ (p.comment ++ 10 :: r)))) = true :=
-    atFieldEnd_sep p.sep _ hne hsep
-  have hrd : ∀ l, parseRdata ctx cv p.ty.value
-      ⟨p.sep ++ (rdataText p.sep p.rdata ++ (p.trail ++ (p.comment ++ 10 :: r))), l, false⟩ =
-      .ok (rd, ⟨r, l + rdataLines p.rdata + 1, false⟩) := fun l =>
-    parseRdata_render ctx hctx cv p.ty.value h41 h250 p.sep p.trail p.comment r hne hsep htrail hcmt p.rdata hrdwf
-      hkind rd hrdw (fun g hg => validB_ok (hgen g hg)) l
+  have hR0 : atFieldEnd (rdataPart p r) = true := (hG 0 (by omega)).atEnd _
+  have hrd : ∀ l, parseRdata ctx cv p.ty.value ⟨rdataPart p r, l, false⟩ =
+      .ok (rd, ⟨r, l + (gapLines (gapAt p.gaps 0) + rdataLines (fun i => gapAt p.gaps (i + 1)) p.rdata +
+        gapLines p.tail) + 1, false⟩) := fun l => by
+    have := parseRdata_render ctx hctx cv p.ty.value h41 h250 (gapAt p.gaps) S p.tail p.comment p.crlf r p.rdata hG hT
+      hrdwf hkind rd hrdw (fun g hg => validB_ok (hgen g hg)) l
+    rw [hS0] at this
+    unfold rdataPart
+    rw [this]
+    congr 3
+    omega
   unfold ownerOf at howner
   have hclsF : ∀ T, (clsPair p).map (·.1) = some T → FieldText T := by
     intro T hT
@@ -186,7 +252,7 @@ theorem parseLine_record (ctx : Ctx) (hctx : CtxWF ctx) (p : PRecord) (hwf : WFR
     | none => simp [hc] at hT
     | some ck => obtain ⟨cT, k⟩ := ck; simp [hc] at hT; subst hT; exact (hclsOK cT k hc).field
   obtain ⟨c, t, hbody, hstart⟩ := recordBody_head p.sep p.ttl ((clsPair p).map (·.1)) p.clsFirst (typeText p.ty)
-    (p.sep ++ (rdataText p.sep p.rdata ++ (p.trail ++ (p.comment ++ 10 :: r)))) hclsF htyOK.field
+    (rdataPart p r) hclsF htyOK.field
   have hcws := fieldStart_not_ws hstart
   rw [renderRecord_eq]
   unfold recordLines
@@ -205,7 +271,7 @@ theorem parseLine_record (ctx : Ctx) (hctx : CtxWF ctx) (p : PRecord) (hwf : WFR
       rcases hx with rfl | rfl <;> decide
     refine ⟨{ ctx with prevOwner := some owner, prevTtl := some tv, prevClass := some cv }, ?_, by simp [toSCtx]⟩
     generalize hB : recordBody p.sep p.ttl ((clsPair p).map (·.1)) p.clsFirst (typeText p.ty)
-      (p.sep ++ (rdataText p.sep p.rdata ++ (p.trail ++ (p.comment ++ 10 :: r)))) = B at hbody
+      (rdataPart p r) = B at hbody
     have esep : p.sep ++ B = x :: (sep' ++ B) := by rw [hsep']; rfl
     rw [esep]
     unfold parseLine
@@ -236,37 +302,36 @@ theorem parseLine_record (ctx : Ctx) (hctx : CtxWF ctx) (p : PRecord) (hwf : WFR
       (fun rest hrest => hnt.parse rest line false hrest)
       p.sep hne hsep p.ttl (clsPair p) p.clsFirst httl hclsOK (typeText p.ty) p.ty.value htyOK h10 h41 h250 tv cv
       htv' hcv' _ hR0 rd r _ (hrd (line + nameLines n))
-    rw [this, Nat.add_assoc line]
+    rw [this]
+    congr 3
+    omega
 
 /-! ### blank lines and directives -/
 
-theorem parseLine_blank (ctx : Ctx) (ws cmt r : List UInt8) (hws : ∀ x ∈ ws, isWs x = true)
-    (hc : commentOK cmt) (line : Nat) :
-    parseLine ctx ⟨ws ++ (cmt ++ 10 :: r), line, false⟩ = .ok ((none, ctx), ⟨r, line + 1, false⟩) := by
-  -- the first octet of the line: a blank, `;`, or the newline — never `$`
-  obtain ⟨c, t, hct, hc36⟩ : ∃ c t, ws ++ (cmt ++ 10 :: r) = c :: t ∧ (c == 36) = false := by
+theorem parseLine_blank (ctx : Ctx) (ws cmt : List UInt8) (crlf : Bool) (r : List UInt8)
+    (hws : ∀ x ∈ ws, isWs x = true) (hc : commentOK cmt) (line : Nat) :
+    parseLine ctx ⟨ws ++ (cmt ++ (eolText crlf ++ r)), line, false⟩ = .ok ((none, ctx), ⟨r, line + 1, false⟩) := by
+  obtain ⟨e0, t0, he0, he0ws, he036⟩ := eol_head cmt hc crlf r
+  -- the first octet of the line: a blank, `;`, or the line end — never `$`
+  obtain ⟨c, t, hct, hc36⟩ : ∃ c t, ws ++ (cmt ++ (eolText crlf ++ r)) = c :: t ∧ (c == 36) = false := by
     cases ws with
     | cons x ws' =>
       have hx := hws x (by simp)
       refine ⟨x, _, rfl, ?_⟩
       simp only [isWs, Bool.or_eq_true, beq_iff_eq] at hx
       rcases hx with rfl | rfl <;> decide
-    | nil =>
-      rcases hc with rfl | ⟨body, rfl, _⟩
-      · exact ⟨10, r, rfl, by decide⟩
-      · exact ⟨59, _, rfl, by decide⟩
+    | nil => exact ⟨e0, t0, by simpa using he0, he036⟩
   unfold parseLine
   simp only [hct, hc36, Bool.false_eq_true, ↓reduceIte]
   rw [parseRecordOrEmpty_eq, ← hct]
-  have hdrop : (ws ++ (cmt ++ 10 :: r)).dropWhile isWs = cmt ++ 10 :: r := by
-    rcases hc with rfl | ⟨body, rfl, _⟩
-    · exact dropWhile_ws ws hws 10 r (by decide)
-    · exact dropWhile_ws ws hws 59 _ (by decide)
-  have hsk : (skipWhitespace ⟨ws ++ (cmt ++ 10 :: r), line, false⟩).2 = ⟨cmt ++ 10 :: r, line, false⟩ := by
+  have hdrop : (ws ++ (cmt ++ (eolText crlf ++ r))).dropWhile isWs = cmt ++ (eolText crlf ++ r) := by
+    rw [he0]; exact dropWhile_ws ws hws e0 t0 he0ws
+  have hsk : (skipWhitespace ⟨ws ++ (cmt ++ (eolText crlf ++ r)), line, false⟩).2 =
+      ⟨cmt ++ (eolText crlf ++ r), line, false⟩ := by
     unfold skipWhitespace
     rw [hct]; simp only; rw [← hct, hdrop]
   rw [hsk]
-  have := fieldOrEol_eol [] cmt r (by simp) hc line
+  have := fieldOrEol_eolG [] cmt (by simp) hc crlf r line
   simp only [List.nil_append] at this
   simp only [this, beq_self_eq_true, ↓reduceIte, pure, P.pure]
 
@@ -274,10 +339,10 @@ theorem origin_bytes : "$ORIGIN".toUTF8.toList = [36, 79, 82, 73, 71, 73, 78] :=
 theorem ttl_bytes : "$TTL".toUTF8.toList = [36, 84, 84, 76] := by decide +kernel
 
 /-- `$ORIGIN <absolute name>` sets the origin -/
-theorem parseLine_origin (ctx : Ctx) (ls : List PLabel) (hls : WFName (.abs ls)) (sep ws cmt r : List UInt8)
+theorem parseLine_origin (ctx : Ctx) (ls : List PLabel) (hls : WFName (.abs ls)) (sep ws cmt : List UInt8) (crlf : Bool) (r : List UInt8)
     (hne : sep ≠ []) (hsep : ∀ x ∈ sep, isWs x = true) (hws : ∀ x ∈ ws, isWs x = true) (hc : commentOK cmt)
     (line : Nat) :
-    parseLine ctx ⟨[36, 79, 82, 73, 71, 73, 78] ++ (sep ++ (renderAbsName ls ++ (ws ++ (cmt ++ 10 :: r)))), line, false⟩ =
+    parseLine ctx ⟨[36, 79, 82, 73, 71, 73, 78] ++ (sep ++ (renderAbsName ls ++ (ws ++ (cmt ++ (eolText crlf ++ r))))), line, false⟩ =
       .ok ((none, { ctx with origin := some (wireName (ls.map labelOctets)) }),
            ⟨r, line + labelLines ls + 1, false⟩) := by
   obtain ⟨lne, lforms, llabels, ltotal⟩ := hls
@@ -289,16 +354,16 @@ theorem parseLine_origin (ctx : Ctx) (ls : List PLabel) (hls : WFName (.abs ls))
   obtain ⟨c0, t0, hct0, _, hc0⟩ := renderLabel_head hlne (lforms l (by simp))
   have habsT : renderAbsName (l :: ls') = c0 :: (t0 ++ 46 :: (ls'.flatMap fun l => renderLabel l ++ [46])) := by
     simp [renderAbsName, hct0]
-  have hEnd := atFieldEnd_eol ws cmt r hws hc
+  have hEnd := atFieldEnd_eolG ws cmt hws hc crlf r
   have hname := parseName_abs ctx.origin (l :: ls') lne lforms llabels ltotal _ hEnd line false
   rw [nameNewlines_eq] at hname
   have hexp : expectFieldCI [36, 79, 82, 73, 71, 73, 78]
-      ⟨[36, 79, 82, 73, 71, 73, 78] ++ (sep ++ (renderAbsName (l :: ls') ++ (ws ++ (cmt ++ 10 :: r)))), line, false⟩ =
-      (true, ⟨sep ++ (renderAbsName (l :: ls') ++ (ws ++ (cmt ++ 10 :: r))), line, false⟩) := by
+      ⟨[36, 79, 82, 73, 71, 73, 78] ++ (sep ++ (renderAbsName (l :: ls') ++ (ws ++ (cmt ++ (eolText crlf ++ r))))), line, false⟩ =
+      (true, ⟨sep ++ (renderAbsName (l :: ls') ++ (ws ++ (cmt ++ (eolText crlf ++ r)))), line, false⟩) := by
     unfold expectFieldCI expectFieldImpl
     simp [eqIgnoreCase, atFieldEnd_sep sep _ hne hsep]
   have hskip := skipToNextField_gap .ExpectedName sep hsep c0
-    (t0 ++ 46 :: (ls'.flatMap fun l => renderLabel l ++ [46]) ++ (ws ++ (cmt ++ 10 :: r))) hc0 line false
+    (t0 ++ 46 :: (ls'.flatMap fun l => renderLabel l ++ [46]) ++ (ws ++ (cmt ++ (eolText crlf ++ r)))) hc0 line false
   unfold parseLine
   simp only [List.cons_append, List.nil_append, beq_self_eq_true, ↓reduceIte]
   unfold parseDirective
@@ -308,21 +373,21 @@ theorem parseLine_origin (ctx : Ctx) (ls : List PLabel) (hls : WFName (.abs ls))
   unfold parseOriginDirective
   rw [habsT] at hname ⊢
   simp only [List.cons_append, List.append_assoc] at hskip hname ⊢
-  simp only [bind, P.bind, hskip, pName, hname, expectEol_eol ws cmt r hws hc, pure, P.pure]
+  simp only [bind, P.bind, hskip, pName, hname, expectEol_eolG ws cmt hws hc crlf r, pure, P.pure]
 
 /-- `$TTL <decimal>` sets the default TTL -/
-theorem parseLine_ttl (ctx : Ctx) (n : Nat) (hn : n ≤ 4294967295) (sep ws cmt r : List UInt8)
+theorem parseLine_ttl (ctx : Ctx) (n : Nat) (hn : n ≤ 4294967295) (sep ws cmt : List UInt8) (crlf : Bool) (r : List UInt8)
     (hne : sep ≠ []) (hsep : ∀ x ∈ sep, isWs x = true) (hws : ∀ x ∈ ws, isWs x = true) (hc : commentOK cmt)
     (line : Nat) :
-    parseLine ctx ⟨[36, 84, 84, 76] ++ (sep ++ (decimal n ++ (ws ++ (cmt ++ 10 :: r)))), line, false⟩ =
+    parseLine ctx ⟨[36, 84, 84, 76] ++ (sep ++ (decimal n ++ (ws ++ (cmt ++ (eolText crlf ++ r))))), line, false⟩ =
       .ok ((none, { ctx with defaultTtl := some (ttlFrom n) }), ⟨r, line + 1, false⟩) := by
   obtain ⟨d, ds, hd, hdstart⟩ := decimal_head n
-  have hEnd := atFieldEnd_eol ws cmt r hws hc
+  have hEnd := atFieldEnd_eolG ws cmt hws hc crlf r
   have hcmp : ∀ X : List UInt8, eqIgnoreCase (List.take 7 (36 :: 84 :: 84 :: 76 :: X)) [36, 79, 82, 73, 71, 73, 78] = false := by
     intro X; simp [eqIgnoreCase, lowerU8]
   have hnot : (expectFieldCI [36, 79, 82, 73, 71, 73, 78]
-      ⟨[36, 84, 84, 76] ++ (sep ++ (decimal n ++ (ws ++ (cmt ++ 10 :: r)))), line, false⟩) =
-      (false, ⟨[36, 84, 84, 76] ++ (sep ++ (decimal n ++ (ws ++ (cmt ++ 10 :: r)))), line, false⟩) := by
+      ⟨[36, 84, 84, 76] ++ (sep ++ (decimal n ++ (ws ++ (cmt ++ (eolText crlf ++ r))))), line, false⟩) =
+      (false, ⟨[36, 84, 84, 76] ++ (sep ++ (decimal n ++ (ws ++ (cmt ++ (eolText crlf ++ r))))), line, false⟩) := by
     unfold expectFieldCI expectFieldImpl
     simp only [List.cons_append, List.nil_append]
     split
@@ -330,11 +395,11 @@ theorem parseLine_ttl (ctx : Ctx) (n : Nat) (hn : n ≤ 4294967295) (sep ws cmt 
     · simp only [show ([36, 79, 82, 73, 71, 73, 78] : List UInt8).length = 7 from rfl, hcmp, Bool.false_and,
         Bool.false_eq_true, ↓reduceIte]
   have hexp : expectFieldCI [36, 84, 84, 76]
-      ⟨[36, 84, 84, 76] ++ (sep ++ (decimal n ++ (ws ++ (cmt ++ 10 :: r)))), line, false⟩ =
-      (true, ⟨sep ++ (decimal n ++ (ws ++ (cmt ++ 10 :: r))), line, false⟩) := by
+      ⟨[36, 84, 84, 76] ++ (sep ++ (decimal n ++ (ws ++ (cmt ++ (eolText crlf ++ r))))), line, false⟩ =
+      (true, ⟨sep ++ (decimal n ++ (ws ++ (cmt ++ (eolText crlf ++ r)))), line, false⟩) := by
     unfold expectFieldCI expectFieldImpl
     simp [eqIgnoreCase, atFieldEnd_sep sep _ hne hsep]
-  have hskip := skipToNextField_gap .ExpectedTtl sep hsep d (ds ++ (ws ++ (cmt ++ 10 :: r))) hdstart line false
+  have hskip := skipToNextField_gap .ExpectedTtl sep hsep d (ds ++ (ws ++ (cmt ++ (eolText crlf ++ r)))) hdstart line false
   have hread := readField_decimal 4294967295 n hn (by omega) .InvalidTtl _ hEnd line false
   unfold parseLine
   simp only [List.cons_append, List.nil_append, beq_self_eq_true, ↓reduceIte]
@@ -347,7 +412,7 @@ theorem parseLine_ttl (ctx : Ctx) (n : Nat) (hn : n ≤ 4294967295) (sep ws cmt 
   rw [hd] at hread ⊢
   simp only [List.cons_append, List.append_assoc] at hskip hread ⊢
   simp only [bind, P.bind, hskip, show parseU32 = parseUInt 4294967295 from rfl, hread,
-    expectEol_eol ws cmt r hws hc, pure, P.pure]
+    expectEol_eolG ws cmt hws hc crlf r, pure, P.pure]
 
 /-! ### whole files -/
 
@@ -397,11 +462,11 @@ theorem next_of_untilData {ctx ctx' : Ctx} {st st' : St} {i : Item}
 
 /-- well-formed presentation of an entry -/
 def WFEntry : PEntry → Prop
-  | .blank ws cmt => (∀ x ∈ ws, isWs x = true) ∧ commentOK cmt
+  | .blank ws cmt _ => (∀ x ∈ ws, isWs x = true) ∧ commentOK cmt
   | .record p => WFRecord p
-  | .origin ls sep trail cmt =>
+  | .origin ls sep trail cmt _ =>
     WFName (.abs ls) ∧ sep ≠ [] ∧ (∀ x ∈ sep, isWs x = true) ∧ (∀ x ∈ trail, isWs x = true) ∧ commentOK cmt
-  | .ttl n sep trail cmt =>
+  | .ttl n sep trail cmt _ =>
     n ≤ 4294967295 ∧ sep ≠ [] ∧ (∀ x ∈ sep, isWs x = true) ∧ (∀ x ∈ trail, isWs x = true) ∧ commentOK cmt
 
 def itemOf (sr : SRecord) : Yield := .item (.record sr.line ⟨sr.owner, sr.ttl, sr.cls, sr.ty, sr.rdata⟩)
@@ -434,52 +499,52 @@ theorem collect_file (es : List PEntry) (hwf : ∀ e ∈ es, WFEntry e) (ctx : C
     have hwf' : ∀ e' ∈ es, WFEntry e' := fun e' h' => hwf e' (by simp [h'])
     have hrf : renderFile (e :: es) = renderEntry e ++ renderFile es := by simp [renderFile]
     cases e with
-    | blank ws cmt =>
-      obtain ⟨hws, hcmt⟩ := hwf (.blank ws cmt) (by simp)
+    | blank ws cmt crlf =>
+      obtain ⟨hws, hcmt⟩ := hwf (.blank ws cmt crlf) (by simp)
       simp only [denoteFile] at hden
-      have hline := parseLine_blank ctx ws cmt (renderFile es) hws hcmt line
-      have htext : renderFile (.blank ws cmt :: es) = (ws ++ cmt ++ [10]) ++ renderFile es := by
+      have hline := parseLine_blank ctx ws cmt crlf (renderFile es) hws hcmt line
+      have htext : renderFile (.blank ws cmt crlf :: es) = (ws ++ cmt ++ eolText crlf) ++ renderFile es := by
         simp [hrf, renderEntry]
       rw [htext]
-      have hline' : parseLine ctx ⟨(ws ++ cmt ++ [10]) ++ renderFile es, line, false⟩ =
+      have hline' : parseLine ctx ⟨(ws ++ cmt ++ eolText crlf) ++ renderFile es, line, false⟩ =
           .ok ((none, ctx), ⟨renderFile es, line + 1, false⟩) := by
-        have e : (ws ++ cmt ++ [10]) ++ renderFile es = ws ++ (cmt ++ 10 :: renderFile es) := by simp
+        have e : (ws ++ cmt ++ eolText crlf) ++ renderFile es = ws ++ (cmt ++ (eolText crlf ++ renderFile es)) := by simp
         rw [e]; exact hline
       obtain ⟨hc, _⟩ := collect_skip hctx hline' (by simp)
       rw [hc]
       exact ih hwf' ctx hctx (line + 1) srs hden
-    | origin ls sep trail cmt =>
-      obtain ⟨hls, hne, hsep, htrail, hcmt⟩ := hwf (.origin ls sep trail cmt) (by simp)
+    | origin ls sep trail cmt crlf =>
+      obtain ⟨hls, hne, hsep, htrail, hcmt⟩ := hwf (.origin ls sep trail cmt crlf) (by simp)
       simp only [denoteFile] at hden
-      have hline := parseLine_origin ctx ls hls sep trail cmt (renderFile es) hne hsep htrail hcmt line
-      have htext : renderFile (.origin ls sep trail cmt :: es) =
-          ([36, 79, 82, 73, 71, 73, 78] ++ sep ++ renderAbsName ls ++ trail ++ cmt ++ [10]) ++ renderFile es := by
+      have hline := parseLine_origin ctx ls hls sep trail cmt crlf (renderFile es) hne hsep htrail hcmt line
+      have htext : renderFile (.origin ls sep trail cmt crlf :: es) =
+          ([36, 79, 82, 73, 71, 73, 78] ++ sep ++ renderAbsName ls ++ trail ++ cmt ++ eolText crlf) ++ renderFile es := by
         simp [hrf, renderEntry]
       rw [htext]
       have hline' : parseLine ctx
-          ⟨([36, 79, 82, 73, 71, 73, 78] ++ sep ++ renderAbsName ls ++ trail ++ cmt ++ [10]) ++ renderFile es, line, false⟩ =
+          ⟨([36, 79, 82, 73, 71, 73, 78] ++ sep ++ renderAbsName ls ++ trail ++ cmt ++ eolText crlf) ++ renderFile es, line, false⟩ =
           .ok ((none, { ctx with origin := some (wireName (ls.map labelOctets)) }),
             ⟨renderFile es, line + labelLines ls + 1, false⟩) := by
-        have e : ([36, 79, 82, 73, 71, 73, 78] ++ sep ++ renderAbsName ls ++ trail ++ cmt ++ [10]) ++ renderFile es =
-            [36, 79, 82, 73, 71, 73, 78] ++ (sep ++ (renderAbsName ls ++ (trail ++ (cmt ++ 10 :: renderFile es)))) := by
+        have e : ([36, 79, 82, 73, 71, 73, 78] ++ sep ++ renderAbsName ls ++ trail ++ cmt ++ eolText crlf) ++ renderFile es =
+            [36, 79, 82, 73, 71, 73, 78] ++ (sep ++ (renderAbsName ls ++ (trail ++ (cmt ++ (eolText crlf ++ renderFile es))))) := by
           simp
         rw [e]; exact hline
       obtain ⟨hc, hctx'⟩ := collect_skip hctx hline' (by simp)
       rw [hc]
       exact ih hwf' _ hctx' _ srs hden
-    | ttl n sep trail cmt =>
-      obtain ⟨hn, hne, hsep, htrail, hcmt⟩ := hwf (.ttl n sep trail cmt) (by simp)
+    | ttl n sep trail cmt crlf =>
+      obtain ⟨hn, hne, hsep, htrail, hcmt⟩ := hwf (.ttl n sep trail cmt crlf) (by simp)
       simp only [denoteFile] at hden
-      have hline := parseLine_ttl ctx n hn sep trail cmt (renderFile es) hne hsep htrail hcmt line
-      have htext : renderFile (.ttl n sep trail cmt :: es) =
-          ([36, 84, 84, 76] ++ sep ++ decimal n ++ trail ++ cmt ++ [10]) ++ renderFile es := by
+      have hline := parseLine_ttl ctx n hn sep trail cmt crlf (renderFile es) hne hsep htrail hcmt line
+      have htext : renderFile (.ttl n sep trail cmt crlf :: es) =
+          ([36, 84, 84, 76] ++ sep ++ decimal n ++ trail ++ cmt ++ eolText crlf) ++ renderFile es := by
         simp [hrf, renderEntry]
       rw [htext]
       have hline' : parseLine ctx
-          ⟨([36, 84, 84, 76] ++ sep ++ decimal n ++ trail ++ cmt ++ [10]) ++ renderFile es, line, false⟩ =
+          ⟨([36, 84, 84, 76] ++ sep ++ decimal n ++ trail ++ cmt ++ eolText crlf) ++ renderFile es, line, false⟩ =
           .ok ((none, { ctx with defaultTtl := some (ttlFrom n) }), ⟨renderFile es, line + 1, false⟩) := by
-        have e : ([36, 84, 84, 76] ++ sep ++ decimal n ++ trail ++ cmt ++ [10]) ++ renderFile es =
-            [36, 84, 84, 76] ++ (sep ++ (decimal n ++ (trail ++ (cmt ++ 10 :: renderFile es)))) := by simp
+        have e : ([36, 84, 84, 76] ++ sep ++ decimal n ++ trail ++ cmt ++ eolText crlf) ++ renderFile es =
+            [36, 84, 84, 76] ++ (sep ++ (decimal n ++ (trail ++ (cmt ++ (eolText crlf ++ renderFile es))))) := by simp
         rw [e]; exact hline
       obtain ⟨hc, hctx'⟩ := collect_skip hctx hline' (by simp)
       rw [hc]
